@@ -317,7 +317,9 @@ async fn run_tcp(cfg: &CConfig, ctx: &mut RunCtx) -> Option<Violation> {
         _ => {}
     }
     if cfg.local_addr {
-        req = req.set_local_addr(IpAddr::from([127, 0, 0, 1]));
+        // any 127/8 address is local on Linux; not the default source address, so that a connection
+        // made without the bind is told apart
+        req = req.set_local_addr(IpAddr::from([127, 0, 0, 3]));
     }
     // the port carried by the request's host wins, `set_port` is the fallback
     let eff_port: u16 = if host_has_port { req_port } else if cfg.set_port { set_port_val } else { 0 };
@@ -401,8 +403,11 @@ async fn run_tcp(cfg: &CConfig, ctx: &mut RunCtx) -> Option<Violation> {
                     let (io, _) = c.into_parts();
                     let peer = io.peer_addr().unwrap();
                     let _ = socket2::SockRef::from(&io).set_linger(Some(std::time::Duration::ZERO));
-                    if cfg.local_addr && !io.local_addr().unwrap().ip().is_loopback() {
-                        return Some(Violation::new("local-addr-ignored", "the stream is not bound to the requested local address"));
+                    if cfg.local_addr && io.local_addr().unwrap().ip() != IpAddr::from([127, 0, 0, 3]) {
+                        return Some(Violation::new("local-addr-ignored", format!("the stream is bound to {} instead of the requested local address 127.0.0.3", io.local_addr().unwrap().ip())));
+                    }
+                    if cfg.local_addr {
+                        ctx.bump("probe.local_bind_checked");
                     }
                     drop(io);
                     Got::Conn(peer)
@@ -1080,5 +1085,5 @@ pub fn describe() -> Describe {
 }
 
 pub fn required_probes() -> Vec<&'static str> {
-    vec!["probe.connected", "probe.fallback_to_later_address", "probe.no_records", "probe.resolver_error", "probe.unresolved", "probe.all_refused", "probe.resolver_consulted", "probe.tls_connected", "probe.tls_rejected", "probe.tls_payload_roundtrip", "probe.host_port_beats_set_port", "probe.unsorted_list_with_two_live", "probe.service_from_factory", "probe.all_fail_with_different_errors", "probe.prior_session_on_same_service", "probe.prior_session_against_openssl_peer", "probe.cn_matches_but_san_does_not"]
+    vec!["probe.connected", "probe.fallback_to_later_address", "probe.no_records", "probe.resolver_error", "probe.unresolved", "probe.all_refused", "probe.resolver_consulted", "probe.tls_connected", "probe.tls_rejected", "probe.tls_payload_roundtrip", "probe.host_port_beats_set_port", "probe.unsorted_list_with_two_live", "probe.service_from_factory", "probe.all_fail_with_different_errors", "probe.prior_session_on_same_service", "probe.prior_session_against_openssl_peer", "probe.cn_matches_but_san_does_not", "probe.local_bind_checked"]
 }
